@@ -645,12 +645,12 @@ class PathRunner(object):
                     dict(detail, way=way))
 
     # -- DFS -------------------------------------------------------------
-    def dfs(self, depth, level, kinds, prefix_filter=None):
+    def dfs(self, depth, level, kinds, prefix_filter=None, **alphabet_opts):
         def rec(image, sig_ser, spec, path, rebuilds, idents, deleted):
             if len(path) >= depth:
                 return
             steps = AL.enabled(spec, level=level, kinds=kinds,
-                               reuse_names=tuple(deleted))
+                               reuse_names=tuple(deleted), **alphabet_opts)
             for step in steps:
                 if not path and prefix_filter is not None and \
                         S.canon(step) not in prefix_filter:
@@ -685,9 +685,11 @@ class PathRunner(object):
 
 
 def work(task):
-    name, start, rows, depth, level, kinds, ways, first = task
+    name, start, rows, depth, level, kinds, ways, first = task[:8]
+    opts = task[8] if len(task) > 8 else {}
     pr = PathRunner(start, rows, ways)
-    pr.dfs(depth, level, kinds, prefix_filter=first)
+    pr.dfs(depth, level, kinds, prefix_filter=first,
+           **{k: tuple(v) for k, v in opts.items()})
     return name, pr.stats, pr.viol3, pr.viol18
 
 
@@ -698,13 +700,14 @@ def tasks_for(tier):
     tasks = []
     only = os.environ.get('VERIF_ONLY')
 
-    def shard(name, start, rows, depth, level, kinds, ways):
+    def shard(name, start, rows, depth, level, kinds, ways, **opts):
         if only and only not in name:
             return
-        firsts = AL.enabled(start, level=level, kinds=kinds)
+        firsts = AL.enabled(start, level=level, kinds=kinds, **opts)
         for i, st in enumerate(firsts):
             tasks.append(('%s#%d' % (name, i), start, rows, depth, level,
-                          kinds, ways, [S.canon(st)]))
+                          kinds, ways, [S.canon(st)],
+                          {k: list(v) for k, v in opts.items()}))
     if tier == 'quick':
         shard('narrow-d3', narrow_start(), 'R2', 3, 'lite', NARROW_KINDS,
               ('W2', 'W5', 'W3'))
@@ -714,6 +717,10 @@ def tasks_for(tier):
               NARROW_KINDS, ('W2', 'W3'))
         shard('indexed-d2', indexed_start(), 'R2', 2, 'full',
               ('AddField', 'DeleteField', 'ChangeField'), ('W2', 'W3'))
+        # a relation added to a model that is then renamed twice
+        shard('rename-chain-d3', two_model_start(), 'R2', 3, 'full',
+              ('AddField', 'RenameModel'), ('W2', 'W3'),
+              add_types=('FK',), rename_models=('Zed', 'Yak'))
         # name re-use needs four steps (change, rename away, add again,
         # change): tiny alphabet, deeper
         shard('reuse-d4', narrow_start(), 'R2', 4, 'tiny', REUSE_KINDS,
